@@ -37,7 +37,7 @@ RtDemands(e) ==
     <<"C01.json",   e.js = JsonOf(x)>>,
     <<"C01.xml",    e.xm = XmlOf(x)>>,
     <<"C01.stable", e.mt2 = ext /\ e.fe2 = ext /\ e.str2 = ext>>,
-    <<"C01.held",   e.held = ext /\ e.heldf = ext>>,          \* a result kept by the caller survives later calls   \* after the caller overwrote the earlier results
+    <<"C01.held",   e.held = ext /\ e.heldf = ext /\ e.helds = ext>>,          \* a result kept by the caller survives later calls   \* after the caller overwrote the earlier results
     <<"C01.back_e", fitsE => \A i \in {1, 2, 3, 4, 5, 11, 12} : e.back[i] = good>>,
     <<"C01.back_b", fitsB => \A i \in 6..10 : e.back[i] = good>>,
     <<"C18.limit_e", ~fitsE => \A i \in 1..5  : e.back[i][1] = 0>>,
